@@ -332,3 +332,23 @@ CONTRACTS += [
              ensures=[('a-modifier-turns-a-point-into-a-period-of-the-same-kind',
                        'result == (dtype + "range" if (has_before or has_after or has_since) else dtype)')]),
 ]
+
+BME = DT + 'base_merged.py::BaseMergedExtractor.'
+
+
+def _amb_setup(I, loc):
+    from pyvc import envmodel as E
+    loc['self'].fields['config'].values['ambiguity_filters_dict'] = {E.CompiledPattern('amb_key', 'amb_key'): E.CompiledPattern('amb_val', 'amb_val')}
+
+
+CONTRACTS += [
+    Contract('dp.merged.filter_ambiguity', BME + '_filter_ambiguity', ['C06', 'C12'], setup=_amb_setup,
+             params=dict(self=Rec(DT + 'base_merged.py::BaseMergedExtractor', dict(config=Config(), options=Const(0))),
+                         er0=ER(), er1=ER(), extract_results=Expr('[er0, er1]'), text=Str()),
+             regex_env={'amb_key': 'any', 'amb_val': {'count': 1}},
+             ensures=[('an-entity-that-no-ambiguity-match-touches-is-kept',
+                       'implies(untouched_by(er0, env_matches("amb_val")), er0 in result) and '
+                       'implies(untouched_by(er1, env_matches("amb_val")), er1 in result)'),
+                      ('nothing-is-invented', 'len(result) <= 2')],
+             note='one ambiguity filter {key: value}; finditer yields at most one match (R1 geometry); two candidate entities'),
+]
